@@ -12,11 +12,16 @@ func geodeticDistAlgo(center [2]float64) (
 	const earthRadius = 6371e3
 	return func(min, max [2]float64, obj *object.Object, item bool) (dist float64) {
 		if item {
+			// The rectangle of a circle that touches a pole is NaN (so are
+			// the vertices of its polygon). The index box passed in, which
+			// covers its disc, stands in then.
 			r := obj.Rect()
-			min[0] = r.Min.X
-			min[1] = r.Min.Y
-			max[0] = r.Max.X
-			max[1] = r.Max.Y
+			if !math.IsNaN(r.Min.X + r.Min.Y + r.Max.X + r.Max.Y) {
+				min[0] = r.Min.X
+				min[1] = r.Min.Y
+				max[0] = r.Max.X
+				max[1] = r.Max.Y
+			}
 		}
 		// Boxes may reach slightly beyond the poles (outward float32 rounding,
 		// or coordinates one ulp past +-90 such as a decoded geohash). The
